@@ -22,12 +22,18 @@ func ParseRate(rateArg string) (int, time.Duration, error) {
 			return rate, unit, fmt.Errorf("rate %s can't be negative", rateArg)
 		}
 		unitArg := (rateArg)[strings.Index(rateArg, "/")+1:]
-		if !isNumeric(unitArg[0:1]) {
+		if unitArg == "" {
+			return rate, unit, fmt.Errorf("unable to parse unit %s: missing unit", rateArg)
+		}
+		if !isNumeric(unitArg[0:1]) && isUnitName(unitArg) {
 			unitArg = "1" + unitArg
 		}
 		unit, err = time.ParseDuration(unitArg)
 		if err != nil {
 			return rate, unit, fmt.Errorf("unable to parse unit %s: %w", rateArg, err)
+		}
+		if unit <= 0 {
+			return rate, unit, fmt.Errorf("unable to parse unit %s: unit must be positive", rateArg)
 		}
 	} else {
 		var err error
@@ -42,6 +48,13 @@ func ParseRate(rateArg string) (int, time.Duration, error) {
 	}
 
 	return rate, unit, nil
+}
+
+// isUnitName reports whether value is a bare duration unit such as "s" or "ms",
+// which stands for one of that unit.
+func isUnitName(value string) bool {
+	re := regexp.MustCompile("^[a-zµμ]+$")
+	return re.MatchString(value)
 }
 
 func isNumeric(value string) bool {
